@@ -150,7 +150,9 @@ func genC18(t *rapid.T) c18Case {
 			}
 			if _, have := p["set"]; have {
 				// (only encodings that can carry a non-string deliver these)
-				p["set"] = rapid.SampledFrom([]interface{}{5.0, true, A{"loc two", 3.0}, A{A{"loc two"}}, M{"p": "loc two"}, "not json"}).Draw(t, l+".illtypedset")
+				p["set"] = rapid.SampledFrom([]interface{}{5.0, true, A{"loc two", 3.0}, A{A{"loc two"}}, M{"p": "loc two"}, "not json",
+					// (JSON text of a list whose elements are not all names)
+					"[null]", `["loc two", null]`, "[1]"}).Draw(t, l+".illtypedset")
 			}
 		case 3:
 			// an empty value for a structured parameter
@@ -506,9 +508,19 @@ func c18Direct(s *sys.System, r c18Req, gens map[string]bool) c18Result {
 		if !ok {
 			return fail
 		}
-		var ps []string
-		if json.Unmarshal([]byte(js), &ps) != nil {
+		// a list of names (decoding into []string would turn a null
+		// into a parent called "")
+		var raw []interface{}
+		if json.Unmarshal([]byte(js), &raw) != nil {
 			return fail
+		}
+		var ps []string
+		for _, x := range raw {
+			name, isString := x.(string)
+			if !isString {
+				return fail
+			}
+			ps = append(ps, name)
 		}
 		if _, err := s.SetParents(ctx, loc, ps); err != nil {
 			return fail
